@@ -655,7 +655,12 @@ pub fn frustum_strategy<T: Fl>() -> BoxedStrategy<Vec<u64>> {
     ];
     let unit = || (-1.0f64..1.0, -1.0f64..1.0, 0.0f64..1.0);
     let ext = || (-8.0f64..8.0, -8.0f64..8.0, -10.0f64..24.0);
-    (fov, aspect, -10.0f64..10.0, ratio, unit(), unit(), ext(), ext())
+    // near plane: 2^-10 .. 2^10, and (an eighth of the cases) scenes so large or so small that near * far is not
+    // representable although every entry of the lh / rh / infinite matrices is (the GL form, which is written with
+    // 2 * near * far, is left out of those cases by the check)
+    let wide: f64 = if T::U < 1e-10 { 100.0 } else { 55.0 };
+    let ne = prop_oneof![7 => -10.0f64..10.0, 1 => prop_oneof![-wide..-40.0, 40.0f64..wide]];
+    (fov, aspect, ne, ratio, unit(), unit(), ext(), ext())
         .prop_map(|(fov, aspect, ne, ratio, i0, i1, e0, e1)| {
             let near = T::rnd(2f64.powf(ne));
             let mut far = T::rnd(near.f() * ratio);
